@@ -4,6 +4,7 @@ import XzVerif.Proofs.LazyDec
 import XzVerif.Proofs.Fuel
 import XzVerif.Proofs.LazyDec2
 import XzVerif.Proofs.LazyXz
+import XzVerif.Proofs.EofStable
 /-
   C13 — Decoded output is independent of read sizes and source fragmentation; EOF is stable.
 
@@ -387,5 +388,26 @@ theorem C13_lazyxz_never_no_space (cfgCap : Nat) (single : Bool) (inp : ByteArra
     (h : LazyXz.newReader cfgCap single inp = .ok x) (lens : List Nat) :
     ∀ r ∈ LazyXz.readSeq x lens, r.2 ≠ .err .noSpace ∧ r.2 ≠ .err .lenRange ∧ r.2 ≠ .err .panic :=
   LazyXz.never_noSpace cfgCap single inp x h lens
+
+/-! ### end of stream is stable — for the three lazy reader models, every input, every schedule that goes on reading
+
+  "Once end of stream has been reported, every further read into a non-empty buffer returns zero bytes and end of stream
+  again."  The schedules `EofStable.seq1/seq2/seqX` thread the reader state through whatever a call returns (also errors);
+  `StableAfterEof`: after the first `io.EOF` every later call delivers nothing and answers `io.EOF` (a zero-length read may
+  answer nil for the classic and the xz reader; the LZMA2 reader returns its stored `io.EOF` also then) — exactly what the
+  real readers do (the per-call ties go on reading after `io.EOF`). -/
+
+theorem C13_lzma_eof_stable (cfgCap : Nat) (inp : ByteArray) (l : LazyDec.LSt) (h : LazyDec.newReader cfgCap inp = .ok l)
+    (lens : List Nat) : EofStable.StableAfterEof true lens (EofStable.seq1 l lens) :=
+  EofStable.lzma_eof_stable cfgCap inp l h lens
+
+theorem C13_lzma2_eof_stable (cfgCap : Nat) (hcap : 4096 ≤ LazyDec.effCap cfgCap) (inp : ByteArray) (lens : List Nat) :
+    EofStable.StableAfterEof false lens (EofStable.seq2 (LazyDec2.newReader2 cfgCap inp) lens) :=
+  EofStable.lzma2_eof_stable cfgCap hcap inp lens
+
+theorem C13_xz_eof_stable (cfgCap : Nat) (single : Bool) (inp : ByteArray) (x : LazyXz.X)
+    (h : LazyXz.newReader cfgCap single inp = .ok x) (lens : List Nat) :
+    EofStable.StableAfterEof true lens (EofStable.seqX x lens) :=
+  EofStable.xz_eof_stable cfgCap single inp x h lens
 
 end Props.C13
